@@ -75,6 +75,29 @@ MUTS3 = [
 ]
 
 
+# round 4
+MUTS4 = [
+ ('U1', 'C07', 'src/primitives/common/thick_segment_iter.rs', 'let start = *self.points.get(self.points.len() - 2)?;', 'let start = *self.points.get(self.points.len() - 1)?;', 'break', 'ThickSegmentIter::next (windows iterator, fuelled): the end join starts at the last instead of the last but one point', 0),
+ ('U2', 'C07', 'src/primitives/common/closed_thick_segment_iter.rs', '} else if self.idx == self.points.len() {', '} else if self.idx + 1 == self.points.len() {', 'break', 'ClosedThickSegmentIter::next: the closing join one step early', 0),
+ ('U3', 'C02', 'src/primitives/triangle/styled.rs', 'if style.stroke_width < 2 || style.stroke_alignment == StrokeAlignment::Inside {\n            return self.bounding_box();', 'if style.stroke_width < 3 || style.stroke_alignment == StrokeAlignment::Inside {\n            return self.bounding_box();', 'break', 'Triangle::styled_bounding_box (fold driver over the closed segment iterator): short cut for width < 3', 0),
+ ('U4', 'C03', 'src/iterator/contiguous.rs', 'self.x = 1;\n            self.y += 1;', 'self.x = 0;\n            self.y += 1;', 'break', 'Cropped::next (`&mut` methods of the generic iterator as parameters): row restart off by one', 0),
+ ('U5', 'C09', 'src/image/image_raw.rs', '.nth(p.x as usize + p.y as usize * self.data_width() as usize)', '.nth(p.y as usize + p.x as usize * self.data_width() as usize)', 'break', 'ImageRaw::pixel (`nth` on a temporary iterator): x and y swapped', 0),
+ ('U6', 'C09', 'src/image/image_raw.rs', '|| area.top_left.x as u32 + area.size.width > self.size.width', '|| area.top_left.x as u32 + area.size.width >= self.size.width', 'break', 'ImageRaw::draw_sub_image: rejection test `>` -> `>=`', 0),
+ ('U7', 'C03', 'src/draw_target/translated.rs', 'let area = area.translate(self.offset);\n        self.parent.fill_solid(&area, color)', 'let area = area.translate(-self.offset);\n        self.parent.fill_solid(&area, color)', 'break', 'Translated::fill_solid (parent target as a call log): offset negated', 0),
+ ('U8', 'C10', 'src/framebuffer.rs', 'let index = (y * WIDTH + x) * BYTES_PER_PIXEL;', 'let index = (y * WIDTH + x + 1) * BYTES_PER_PIXEL;', 'break', 'impl_bytes! set_pixel (6 instances): index off by one pixel', 0),
+ ('U9', 'C14', 'src/mono_font/mapping.rs', None, None, 'break', 'StrGlyphMapping::chars (from_fn generator): the range `start..=end` becomes `start..=start`', 0),
+ ('U10', 'C15', 'src/mono_font/mono_text_style.rs', '            .saturating_sub(self.font.character_spacing);\n\n        let bb_height', '            ;\n\n        let bb_height', 'break', 'MonoTextStyle::measure_string: the trailing spacing is no longer subtracted', 0),
+ ('U11', 'C15', 'src/text/text.rs', 'position.y += self.line_height();', 'position.y -= self.line_height();', 'break', 'Text::lines (stateful map over split lines): `+=` -> `-=`', 0),
+ ('U12', 'C20', 'src/mock_display/mod.rs', 'tl.map(|tl| tl.component_min(point)).or(Some(point)),', 'tl.map(|tl| tl.component_max(point)).or(Some(point)),', 'break', 'MockDisplay::affected_area (zip / filter_map / fold over a collected iterator): min -> max', 0),
+ ('U13', 'C20', 'src/mock_display/mod.rs', 'if !self.allow_overdraw && self.get_pixel(point).is_some() {', 'if self.allow_overdraw && self.get_pixel(point).is_some() {', 'break', 'MockDisplay::draw_pixel (panic paths): dropped `!`', 0),
+ ('U14', 'C07', 'src/primitives/triangle/mod.rs', 'self.vertices.iter_mut().for_each(|v| *v += by);', 'self.vertices.iter_mut().for_each(|v| *v -= by);', 'break', 'Triangle::translate_mut (unrolled for_each): `+=` -> `-=`', 0),
+ ('U15', 'C06', 'src/primitives/sector/mod.rs', 'let circle = self.to_circle().offset(offset);', 'let circle = self.to_circle().offset(-offset);', 'break', 'Sector::offset (opaque angles): offset negated', 0),
+ ('U16', 'C19', 'src/primitives/triangle/scanline_intersections.rs', '} else if let Some(first) = self.lines.first.try_take() {\n            Some((first, PointType::Stroke))', '} else if let Some(first) = self.lines.first.try_take() {\n            Some((first, PointType::Fill))', 'break', 'triangle ScanlineIntersections::next: the first edge line reported as Fill', 0),
+ ('W1', 'C14', 'src/mono_font/mapping.rs', None, None, 'preserve', 'StrGlyphMapping::chars: local `range` renamed', 0),
+ ('W2', 'C15', 'src/text/text.rs', None, None, 'preserve', 'Text::lines: local `p` renamed', 0),
+]
+
+
 def sh(cmd, env=None, timeout=3600):
     p = subprocess.run(cmd, shell=True, cwd=V, env=dict(os.environ, **(env or {})), stdout=subprocess.PIPE, stderr=subprocess.STDOUT, text=True, timeout=timeout)
     return p.returncode, p.stdout
@@ -86,6 +109,24 @@ def special(mid, txt):
                            'self.origin_distance - point.dot_product(self.normal_vector)\n    }\n\n    /// Checks if a point is on the given side of the line.', 1)
     if mid == 'Q1':
         return txt.replace('error_before_decrease', 'before')
+    if mid in ('U9', 'W1'):
+        i = txt.index('pub fn chars(&self) -> impl Iterator<Item = char>')
+        j = txt.index('pub fn contains(&self, c: char)')
+        seg = txt[i:j]
+        if mid == 'U9':
+            assert seg.count('start..=end') == 1
+            seg2 = seg.replace('start..=end', 'start..=start')
+        else:
+            seg2 = seg.replace('let range = match', 'let rg = match').replace('Some(range)', 'Some(rg)')
+        assert seg2 != seg
+        return txt[:i] + seg2 + txt[j:]
+    if mid == 'W2':
+        i = txt.index('fn lines(&self)')
+        j = txt.index('impl<S: TextRenderer> Drawable for Text')
+        seg = txt[i:j]
+        seg2 = seg.replace('let p = match self.text_style.alignment', 'let pos = match self.text_style.alignment').replace('(line, p)', '(line, pos)')
+        assert seg2 != seg
+        return txt[:i] + seg2 + txt[j:]
     if mid == 'S1':
         i = txt.index('impl<O: DataOrder> LoadStore<O> for RawU16 {')
         j = txt.index('impl<O: DataOrder> LoadStore<O> for RawU24 {')
@@ -122,11 +163,11 @@ def first_failing_lemma(out):
 def main():
     want = sys.argv[1:]
     rows = []
-    allm = [m + (0,) for m in MUTS] + MUTS2 + MUTS3
+    allm = [m + (0,) for m in MUTS] + MUTS2 + MUTS3 + MUTS4
     for mid, prop, f, old, new, kind, what, occ in allm:
         if want and mid not in want:
             continue
-        if not want and mid[0] in 'NQRST':
+        if not want and mid[0] in 'NQRSTUW':
             continue
         sh('git -C /repo worktree remove --force %s; git -C /repo worktree prune' % S)
         rc, o = sh('git -C /repo worktree add --detach %s HEAD' % S)
